@@ -1532,6 +1532,11 @@ func (c *Compiler) compileRepeatMin(sub *syntax.Regexp, minCount int, nonGreedy 
 	if minCount == 0 {
 		return c.compileStar(sub, nonGreedy)
 	}
+	if minCount == 1 {
+		// x{1,} is x+ (as in syntax.Simplify). Emitting x x* instead would compile
+		// sub twice, which is exponential for nested repeats like ((a{1,}){1,}){1,}.
+		return c.compilePlus(sub, nonGreedy)
+	}
 
 	// Concatenate minCount copies + star
 	var subs []*syntax.Regexp
